@@ -257,6 +257,7 @@ async fn interp(world: Arc<World>, steps: Vec<Step>) -> Outcome {
     let mut poisoned_expected = false;
     let mut released = [false; 4];
     let mut used = [false; 4];
+    let mut hung: Option<String> = None;
 
     for (si, step) in steps.iter().enumerate() {
         out.step = si;
@@ -333,8 +334,11 @@ async fn interp(world: Arc<World>, steps: Vec<Step>) -> Outcome {
                 let o = outstanding.remove(i);
                 let r = match tokio::time::timeout(Duration::from_secs(20), o.handle).await {
                     Err(_) => {
-                        out.inconclusive = Some("an interact() did not finish within 20 s".into());
-                        return out;
+                        // every gate this history used is open, so no closure of ours blocks: if the
+                        // value is never destroyed either, the settle phase reports that; otherwise
+                        // the run is inconclusive
+                        hung = Some("an interact() did not finish within 20 s".to_string());
+                        break;
                     }
                     Ok(Err(e)) => fail!("harness", "interact task failed: {}", e),
                     Ok(Ok(r)) => r,
@@ -423,6 +427,44 @@ async fn interp(world: Arc<World>, steps: Vec<Step>) -> Outcome {
                         std::panic::panic_any(Injected);
                     }));
                     let _ = h.await;
+                } else if running {
+                    // A closure is still using the value (possibly behind a closed gate). Dropping the
+                    // wrapper must not wait for it: the drop is made on a thread of its own, which
+                    // then counts as "the thread that dropped the wrapper", and has to return.
+                    let (tx, rx) = std::sync::mpsc::channel::<()>();
+                    let world3 = world.clone();
+                    let handle = tokio::runtime::Handle::current();
+                    let th = std::thread::spawn(move || {
+                        let _ctx = handle.enter();
+                        {
+                            let mut g = lock(&world3.w);
+                            g.async_threads.insert(format!("{:?}", std::thread::current().id()));
+                            g.trace.push(format!("wrapper dropped on {:?} (a thread of its own)", std::thread::current().id()));
+                        }
+                        drop(w);
+                        let _ = tx.send(());
+                    });
+                    let mut returned = false;
+                    for _ in 0..3000 {
+                        if rx.try_recv().is_ok() {
+                            returned = true;
+                            break;
+                        }
+                        tokio::time::sleep(Duration::from_millis(1)).await;
+                    }
+                    if !returned {
+                        for g in 0..4 {
+                            *lock(&world.gates[g].0) = true;
+                            world.gates[g].1.notify_all();
+                        }
+                        let _ = th.join();
+                        fail!(
+                            "drop-blocks-while-closure-runs",
+                            "dropping the wrapper did not return within 3 s while a closure of a cancelled interact() was still running: the dropping thread waits for blocking work"
+                        );
+                    }
+                    let _ = th.join();
+                    out.labels.push("drop:on-own-thread-while-closure-runs".into());
                 } else {
                     lock(&world.w).trace.push(format!("wrapper dropped on {:?}", std::thread::current().id()));
                     drop(w);
@@ -484,10 +526,14 @@ async fn interp(world: Arc<World>, steps: Vec<Step>) -> Outcome {
                 drop(w);
                 fail!("destructor-never-ran", "the wrapped value was not destroyed within 20 s after the wrapper was dropped and every closure had finished");
             }
-            out.inconclusive = Some("closures did not finish within 20 s".into());
+            out.inconclusive = Some(hung.clone().unwrap_or_else(|| "closures did not finish within 20 s".into()));
             return out;
         }
         tokio::time::sleep(Duration::from_millis(1)).await;
+    }
+    if let Some(h) = hung {
+        out.inconclusive = Some(h);
+        return out;
     }
     // give a second destructor (double drop) a chance to show up
     pause().await;
